@@ -1,5 +1,6 @@
 import XMT.Drv.Util
 import XMT.Keys
+import XMT.KeysPickWait
 namespace XMT.Drv.C06
 open XMT XMT.Keys XMT.Drv
 
@@ -85,6 +86,12 @@ def handle (args : List String) : String :=
       let (k', ok) := k.fillShared cv [] []
       (if ok then "ok " else "err ") ++ hexOrDash k'.share
     | _, _ => "bad-op"
+  | ["pickwait", ab, rk, pend] =>
+    -- the Channel-mode helper: abandoned 0|1, re-key rolled 0|1, a KeyPair already pending 0|1
+    let cv : Curve := { pubOf := fun a => a, dh := fun _ _ => some [1] }
+    let cl : Client := { keys := KeyPair.zero, next := if pend = "1" then some KeyPair.zero else none }
+    let r := pickWait cv cl (ab = "1") (if rk = "1" then some [7] else none)
+    s!"pending={if r.2.next.isSome then 1 else 0} queued={if r.1.isSome then 1 else 0} crypt={match r.1 with | some p => (if p.crypt then 1 else 0) | none => 0}"
   | "hist" :: o :: srv :: pt :: dt :: evs =>
     match kv "obs=" o, (kv "srv=" srv).bind ofHex, (kv "pub=" pt).bind parsePubTable,
           (kv "dh=" dt).bind parseDhTable, evs.mapM parseEv with
